@@ -8,7 +8,7 @@
   (`inputOK`, `viewOK`: Spec/Layout.lean) say only what the secmet constructors and region
   formation guarantee: areas are one part or `[s, L) + [0, e)` with `e ≤ s`, lie inside the
   region, a protocluster's core lies inside the protocluster.  The model is the code with the
-  repairs D24, D30, D31, D70-C19 (fixes/) applied; without them 3, 5, 6 are false (corpus/C19).
+  repairs D24, D30, D31, D70-C19, D72-C19 (fixes/) applied; without them 3, 5, 6 are false (corpus/C19).
 -/
 import ASV.Proofs.PackingBuild
 import ASV.Proofs.PackingGenes
@@ -155,6 +155,38 @@ theorem origin_spanning_region_never_splits (c : Ctx) (r : RegionIn) (out : List
         exact hcond.1.1.2
       · simp at hsh
     omega
+
+/-- a protocluster drawn whole shows exactly as many core positions as its core has bases — in
+    particular never an empty core, also when the core tiles the whole record from a position back
+    to itself (`core_start == core_end`; D72-C19).  For split protoclusters the same count over
+    both halves is part of `drawn_exactly_once` (`Shown.coreLen`). -/
+theorem cores_drawn_in_full (c : Ctx) (r : RegionIn) (out : List Area) (hin : inputOK c r = true)
+    (h : buildAreaRows c r = some out) :
+    ∀ a ∈ out, a.group = 0 → a.kind = .proto →
+      ∃ f ∈ toDraw r, f.kind = .proto ∧ a.end - a.start = f.core.len ∧ 0 < f.core.len := by
+  obtain ⟨seq, out', hseq, _, h', bok, _⟩ := build_total' hin
+  obtain rfl : out' = out := by rw [h'] at h; exact Option.some.inj h
+  intro a ha hg hk
+  obtain ⟨x, hx, gid, as, hgid, good, hm⟩ := bok.src a ha
+  have hfm : x.1 ∈ toDraw r := (emission_perm hseq).subset (List.mem_map_of_mem hx)
+  have hfeat := emission_feats hin hseq x hx
+  rcases good.drawn with ⟨a', rfl, _, hsh⟩ | ⟨a', b', rfl, hga, hgb, _⟩
+  · simp only [List.mem_singleton] at hm
+    subst hm
+    simp only [Drawn.shown, Option.some.injEq] at hsh
+    have hkind := congrArg Shown.kind hsh
+    have hlen := congrArg Shown.coreLen hsh
+    simp only [expectedShown] at hkind hlen
+    have hxk : x.1.kind = .proto := by
+      split at hkind <;> simp_all
+    simp only [hxk] at hlen
+    refine ⟨x.1, hfm, hxk, hlen, ?_⟩
+    obtain ⟨_, k1, _, _⟩ := proto_core hfeat hxk
+    rcases collOK_cases k1 with ⟨q, hq, _, h2, _⟩ | ⟨s, e, hq, h1, h2, h3⟩
+    · rw [hq]; simp [Loc.len, Loc.parts, Part.len]; omega
+    · rw [hq]; simp [Loc.len, Loc.parts, Part.len]; omega
+  · simp only [List.mem_cons, List.not_mem_nil, or_false] at hm
+    rcases hm with rfl | rfl <;> omega
 
 /-! ### get_unique_protoclusters: from the region's children to the drawing -/
 
@@ -360,5 +392,17 @@ example : (buildAreaRows exTile exTileIn).map
 example : inputOK ⟨xl 600 1000 600, 1000, true⟩ ⟨[⟨xl 600 1000 600, .sub, default, false, "x"⟩], [], []⟩ = true ∧
     (buildAreaRows ⟨xl 600 1000 600, 1000, true⟩ ⟨[⟨xl 600 1000 600, .sub, default, false, "x"⟩], [], []⟩).map
       (·.map fun a => (a.nstart, a.nend, a.group)) = some [(600, 1600, 0)] := by decide
+
+/-- a protocluster whose core tiles the record from 600 back to 600, in the origin-spanning region
+    `[600,1000) + [0,600)` and in the whole-record region: the core is drawn in full (D72-C19) -/
+example : inputOK ⟨xl 600 1000 600, 1000, true⟩
+      ⟨[], [⟨xl 600 1000 600, .cand, xl 600 1000 600, true, "CC"⟩], [⟨xl 600 1000 600, .proto, xl 600 1000 600, false, "a"⟩]⟩ = true ∧
+    (buildAreaRows ⟨xl 600 1000 600, 1000, true⟩
+      ⟨[], [⟨xl 600 1000 600, .cand, xl 600 1000 600, true, "CC"⟩], [⟨xl 600 1000 600, .proto, xl 600 1000 600, false, "a"⟩]⟩).map
+      (·.map fun a => (a.nstart, a.start, a.end, a.nend)) = some [(600, 600, 1600, 1600)] := by decide
+example : (buildAreaRows exWhole
+      ⟨[⟨sl 0 1000, .sub, default, false, "y"⟩], [], [⟨xl 600 1000 600, .proto, xl 600 1000 600, false, "a"⟩]⟩).map
+      (·.map fun a => ((a.nstart, a.start, a.end, a.nend), a.group)) =
+    some [((0, 0, 1000, 1000), 0), ((600, 600, 1000, 1000), 2), ((0, 0, 600, 600), 2)] := by decide
 
 end ASV.C19
